@@ -154,6 +154,8 @@ def format_one(sp, arg):
             if c == "o" and not ds.startswith("0"): ds = "0" + ds
             if c in "xX" and v != 0: pre = "0" + c
         return pad(f, w, pre.encode(), ds.encode(), p is None)
+    if c == "c" and sp.lenmod == "l":
+        return pad(f, w, b"", wide_char(arg), False)
     if c == "c":
         return pad(f, w, b"", bytes([arg & 0xff]), False)
     if c == "s":
@@ -167,6 +169,17 @@ def format_one(sp, arg):
         sg, body, special = fmt_float(f, p, c, arg)
         return pad(f, w, sg.encode(), body.encode(), not special)
     raise ValueError("conversion %r" % c)
+
+
+def wide_char(arg):
+    """%lc: the multibyte (UTF-8) form of the wide character; for a value that is no Unicode scalar value the C standard
+    defines no output and the library's is its encoder's bit pattern (three- or four-byte form by magnitude)"""
+    e = arg & 0xFFFFFFFF
+    if e < 0xD800 or 0xE000 <= e < 0x110000:
+        return chr(e).encode("utf-8")
+    if e < 0x10000:
+        return bytes([0xE0 | (e >> 12) & 0x0F, 0x80 | (e >> 6) & 0x3F, 0x80 | e & 0x3F])
+    return bytes([0xF0 | (e >> 18) & 0x07, 0x80 | (e >> 12) & 0x3F, 0x80 | (e >> 6) & 0x3F, 0x80 | e & 0x3F])
 
 
 def parse(fmt):
